@@ -1473,6 +1473,8 @@ class ktensor:
          [ 0.70710678... -0.70710678...]]
         """
         M = self.weights[:, None] @ self.weights[:, None].T
+        if n not in range(self.ndims):
+            assert False, "Input parameter 'n' must be in the range of self.ndims"
         for i in range(self.ndims):
             if i != n:
                 M = M * (self.factor_matrices[i].T @ self.factor_matrices[i])
@@ -2249,7 +2251,7 @@ class ktensor:
         for k in modes:
             if k == -1:
                 needed += self.ncomponents
-            elif k < self.ndims:
+            elif 0 <= k < self.ndims:
                 needed += self.shape[k] * self.ncomponents
             else:
                 assert False, f"Invalid mode: {k}"
